@@ -12,12 +12,14 @@
     ubuntu/distributionscanner.go   findDist            (after the fix: newDist, no shared map)
     aws|oracle|photon/distributionscanner.go   parse (regexp table → releaseToDist)
     suse/distributionscanner.go     parse, cpeToDist    (CPE names of the plain shape cpe:/o:vendor:product:version…)
+    updater/osv/osv.go              Factory.UpdaterSet ecosystem naming, LookupRepository
     alpine/release.go, debian/releases.go, ubuntu/updaterset.go, */releases.go,
     oracle/parser.go platformToDist, suse/factory.go createUpdater (href → Distribution)
   Core Lean only.
 -/
 import ClairModel.Model.JoinRe
 import ClairModel.Gen.JoinReleases
+import ClairModel.Gen.JoinOsv
 
 namespace ClairModel.Join
 open ClairModel.Bytes (isPrefix parseInt32 isDigit)
@@ -317,5 +319,29 @@ def suseELVersion (href : Bytes) : Option Bytes :=
 
 def suseELDist (ver : Bytes) : Dist := JoinReleases.suse.mkELDist.eval [.str [], .str ver]
 def suseLeapDist (ver : Bytes) : Dist := JoinReleases.suse.mkLeapDist.eval [.str [], .str ver]
+
+/-! ### OSV: ecosystem → repository stamped on advisories -/
+
+/-- `Factory.UpdaterSet`: the updater's ecosystem is the lower-cased line of
+    `ecosystems.txt` cut at the first `:`; `none` when it is in the ignore list. -/
+def osvEcosystem (line : Bytes) : Option Bytes :=
+  let e := lower line
+  let e := match ClairModel.Bytes.cut 58 e with
+    | some (a, _) => a
+    | none => e
+  if JoinOsv.ignore.contains e then none else some e
+
+/-- `LookupRepository(name)` -/
+def osvLookupRepository (name : Bytes) : Repo :=
+  { name := name, uri := (lookupFirst JoinOsv.lookupRepositoryURI name).getD [] }
+
+/-- The repository on every advisory of the updater for an `ecosystems.txt` line. -/
+def osvRepo (line : Bytes) : Option Repo := (osvEcosystem line).map osvLookupRepository
+
+/-- `Insert`: name and kind of the advisory's package for an affected entry of
+    ecosystem `eco` with package name `name` and PURL `purl`. -/
+def osvPackage (eco name purl : Bytes) : Bytes × Bytes :=
+  (if JoinOsv.nameEcosystems.contains eco then name else purl,
+   if JoinOsv.kindEcosystems.contains eco then JoinOsv.packageKind else [])
 
 end ClairModel.Join
